@@ -33,6 +33,9 @@ type Reply struct {
 	// own transports may: nothing requires the map to be allocated, and http.Client works on such a response).
 	// Only with an empty Hdr and a close-delimited body: "no header fields at all".
 	NilHdr bool `json:"nil_hdr,omitempty"`
+	// NilResp: the upstream returns (nil, nil) — a RoundTripper contract violation that net/http's own client
+	// turns into an error; to the model it is a failed origin call
+	NilResp bool `json:"nil_resp,omitempty"`
 }
 
 type Fault struct {
@@ -57,6 +60,9 @@ type Op struct {
 	// Host: http.Request.Host ("For client requests, Host optionally overrides the Host header to send"): the
 	// authority of the target URI the origin sees, while URL.Host stays where the connection goes
 	Host string `json:"host,omitempty"`
+	// NilHeader: the caller's request has a nil Header map (a request built as a struct literal and handed to
+	// RoundTrip directly; http.Client would allocate it). Only with an empty Hdr: "no header fields".
+	NilHeader bool `json:"nil_header,omitempty"`
 }
 
 // opURL: the url.URL value the caller's request carries
